@@ -336,9 +336,31 @@ def write_if_changed(path, text):
     return False
 
 
+def regenerate_roots():
+    """root import files and the driver's handler table follow the directory contents"""
+    lean = os.path.dirname(os.path.dirname(GEN_DIR))
+
+    def mods(sub):
+        out = []
+        base = os.path.join(lean, sub)
+        for root, _, fs in sorted(os.walk(base)):
+            for fn in sorted(fs):
+                if fn.endswith('.lean'):
+                    rel = os.path.relpath(os.path.join(root, fn), lean)[:-5]
+                    out.append(rel.replace(os.sep, '.'))
+        return out
+    gen = ['VotelibModel.Gen.' + m for m in SPECS]
+    model = [m for m in mods('VotelibModel') if m not in gen]
+    write_if_changed(os.path.join(lean, 'VotelibModel.lean'),
+                     ''.join(f'import {m}\n' for m in sorted(set(model + gen))))
+    write_if_changed(os.path.join(lean, 'VotelibProofs.lean'),
+                     ''.join(f'import {m}\n' for m in mods('VotelibProofs')))
+
+
 def regenerate(modules=None):
     """returns dict module -> {'changed': bool, 'error': str|None, 'sha': str}"""
     res = {}
+    regenerate_roots()
     for m in (modules or SPECS.keys()):
         path = os.path.join(GEN_DIR, m + '.lean')
         try:
